@@ -81,8 +81,8 @@ def compact(ip, port, nid):
     return a + port.to_bytes(2, "big") + nid
 
 
-def token_for(ip):
-    return hashlib.sha384(H("secret") + bytes(int(x) for x in ip.split("."))).digest()
+def token_for(ip, secret="secret"):
+    return hashlib.sha384(H(secret) + bytes(int(x) for x in ip.split("."))).digest()
 
 
 # ------------------------------------------------------------------------------------------------------
@@ -543,6 +543,10 @@ def request_semantics(v, own, tokens_enforced, sender_ip):
     if port == 65535:
         return "dontcare", "port-65535"
     if token != token_for(sender_ip):
+        if tokens_enforced and isinstance(token, bytes) and token == token_for(sender_ip, "oldsecret"):
+            # the token of the previous secret is still honoured after a refresh, by design (verify_token); the coverage-guided
+            # campaign finds it through the comparison feedback
+            return "valid", "store-previous-token"
         if tokens_enforced and isinstance(token, bytes):
             return "invalid", "bad-token"
         return "dontcare", "unverified-token"
@@ -1079,7 +1083,7 @@ def request_args(method):
     if method in (b"findNode", b"findValue"):
         return st.builds(fin, st.lists(key, max_size=2), pvd)
     port = st.one_of(st.integers(1, 65534), st.sampled_from([0, -1, 65535, 65536, 1, 1023, b"80", [], 2 ** 70]))
-    token = st.sampled_from(["valid", b"", b"t" * 48, b"t" * 47, 7, []])
+    token = st.sampled_from(["valid", "valid", "valid_old", b"", b"t" * 48, b"t" * 47, 7, []])
     blob = st.one_of(st.integers(0, 3).map(lambda j: H("blob", j)),
                      st.sampled_from([b"", b"b" * 47, b"b" * 48, b"b" * 49, 3, []]))
     pos = st.tuples(blob, token, port, st.sampled_from([b"n" * 48, b"", 0]), st.sampled_from([0, 1, b""]))
@@ -1092,6 +1096,8 @@ def _fix_tokens(item, sender_ip):
         if isinstance(x, dict):
             if x.get("b") == "valid":
                 return {"b": token_for(sender_ip).hex()}
+            if x.get("b") == "valid_old":
+                return {"b": token_for(sender_ip, "oldsecret").hex()}
             return {k: walk(v) for k, v in x.items()}
         if isinstance(x, list):
             return [walk(y) for y in x]
@@ -1100,8 +1106,8 @@ def _fix_tokens(item, sender_ip):
 
 
 def to_tree_tok(v):
-    if v == "valid":
-        return {"b": "valid"}
+    if v in ("valid", "valid_old"):
+        return {"b": v}
     if isinstance(v, list):
         return {"l": [to_tree_tok(x) for x in v]}
     if isinstance(v, dict):
